@@ -17,7 +17,7 @@ import re
 import uuid
 from dataclasses import dataclass, field
 from enum import Enum
-from typing import Any, Callable, Dict, List, Literal, NewType, Optional, Sequence, Tuple, Union
+from typing import Any, Callable, Dict, Generic, List, Literal, NewType, Optional, Sequence, Tuple, TypeVar, Union
 
 import apischema
 from apischema import (
@@ -40,7 +40,7 @@ from apischema.fields import with_fields_set
 from apischema.metadata import flatten
 from apischema.typing import Annotated
 from apischema.json_schema import JsonSchemaVersion
-from apischema.objects import ObjectField, set_object_fields
+from apischema.objects import ObjectField, object_fields, object_serialization, set_object_fields
 from apischema.serialization import PassThroughOptions
 from apischema.type_names import TypeName
 
@@ -325,6 +325,70 @@ class L:
     color: Color = Color.RED
 
 
+
+# -- generic class named through a factory registered on its origin
+_T = TypeVar("_T")
+
+
+@dataclass
+class Box(Generic[_T]):
+    value: _T
+
+
+@dataclass
+class BoxHolder:
+    a: Box[int]
+    b: Box[str]
+    more: List[Box[int]] = field(default_factory=list)
+
+
+# -- object fields derived lazily from another class's fields (what object_serialization does itself)
+@dataclass
+class User:
+    name: str
+    email: str = "e"
+    password: str = "pw"
+
+
+class UserView:
+    def __init__(self, name, email="e", password="pw"):
+        self.name, self.email, self.password = name, email, password
+
+    def __repr__(self):
+        return "UserView(%r, %r, %r)" % (self.name, self.email, self.password)
+
+
+def _userview_fields():
+    return list(object_fields(User).values())
+
+
+set_object_fields(UserView, _userview_fields)
+
+
+def user_initials(u: User) -> str:
+    return u.name[:1].upper()
+
+
+USER_CONV = object_serialization(User, ["name", "email", user_initials])
+
+
+# -- schema annotations holding values that are serialized when the schema is dumped
+@dataclass
+class Ver:
+    major: int
+    minor_part: Optional[int] = None
+
+
+@dataclass
+class ExV:
+    v: int = field(default=0, metadata=schema(examples=[Ver(1)], extra={"x-ver": Ver(2, 3)}))
+    w: Optional[Ver] = field(default=None, metadata=schema(default=Ver(4)))
+
+
+@dataclass
+class Op1Ex:
+    v: int = field(default=0, metadata=schema(examples=[Op1(5), Op1Sub(6)]))
+
 # -- the two order-conflated types of the known finding (excluded from generation)
 UnionIS = Union[int, str]
 UnionSI = Union[str, int]
@@ -336,6 +400,7 @@ TYPES: Dict[str, Any] = {
     "U": U, "L": L, "RawInit": RawInit, "FL": FL, "FLInner": FLInner, "LPet": LPet, "ListP": List[P], "ListInt": List[int], "DictStrInt": Dict[str, int], "PosInt": PosInt,
     "UUID": uuid.UUID, "OptP": Optional[P], "ListOp1": List[Op1], "ListAnimal": List[Animal],
     "UnionIS": UnionIS, "UnionSI": UnionSI, "Any": Any,
+    "BoxInt": Box[int], "BoxHolder": BoxHolder, "User": User, "UserView": UserView, "ExV": ExV, "Op1Ex": Op1Ex,
 }
 
 # =====================================================================  pre-built configuration objects
@@ -811,6 +876,55 @@ def _():
 @cfg("set_object_fields.LCat.kitty", "fields", "lpet", "disc")
 def _():
     set_object_fields(LCat, LCAT_FIELDS)
+
+
+# -- type names of a generic class (factory registered on the origin)
+def box_name_factory(tp, arg):
+    return "Box_" + getattr(arg, "__name__", "x")
+
+
+def box_name_factory2(tp, arg):
+    return getattr(arg, "__name__", "x").capitalize() + "Box"
+
+
+@cfg("type_name.Box.factory", "typename", "schema", "box")
+def _():
+    type_name(box_name_factory)(Box)
+
+
+@cfg("type_name.Box.factory2", "typename", "schema", "box")
+def _():
+    type_name(box_name_factory2)(Box)
+
+
+@cfg("type_name.Box.none", "typename", "schema", "box")
+def _():
+    type_name(None)(Box)
+
+
+# -- fields of the class from which other classes derive theirs lazily
+USER_FIELDS_MAIL = (ObjectField("name", str), ObjectField("email", str, required=False, default="e", metadata=alias("mail")))
+USER_FIELDS_NOPW = (ObjectField("name", str), ObjectField("email", str, required=False, default="e"))
+
+
+@cfg("set_object_fields.User.mail", "fields", "user")
+def _():
+    set_object_fields(User, USER_FIELDS_MAIL)
+
+
+@cfg("set_object_fields.User.nopw", "fields", "user")
+def _():
+    set_object_fields(User, USER_FIELDS_NOPW)
+
+
+@cfg("set_object_fields.User.none", "fields", "user")
+def _():
+    set_object_fields(User, None)
+
+
+@cfg("alias.User.upper", "alias", "user")
+def _():
+    alias(_upper)(User)
 
 
 # -- type names
@@ -1310,6 +1424,27 @@ _ser("LPet.cat", "LPet", lambda: LCat("lcat", 1), "lpet", "disc", "alias")
 _ser("Rec.deep", "Rec", lambda: Rec(1, Rec(2, Rec(3))), "rec", "fields")
 _ser("SOD.plain", "SOD", lambda: SOD(4, "q", 1.5), "fields")
 
+_des("BoxHolder", "BoxHolder", {"a": {"value": 1}, "b": {"value": "x"}, "more": [{"value": 2}]}, "box", "typename")
+_des("UserView", "UserView", {"name": "bob", "email": "b@x"}, "user", "fields", "alias")
+_des("UserView.mail", "UserView", {"name": "bob", "mail": "b@x"}, "user", "fields", "alias")
+_des("UserView.upper", "UserView", {"NAME": "bob"}, "user", "fields", "alias")
+_des("User", "User", {"name": "bob", "password": "s"}, "user", "fields", "alias")
+_ser("BoxHolder", "BoxHolder", lambda: BoxHolder(Box(1), Box("x"), [Box(2)]), "box")
+_ser("User", "User", lambda: User("bob"), "user", "fields", "alias")
+_ser("UserView", "UserView", lambda: UserView("bob"), "user", "fields", "alias")
+
+
+@obs("ser.User.conv", "user", "fields", "alias")
+def _():
+    return apischema.serialize(User, User("bob"), conversion=USER_CONV)
+
+
+@obs("sschema.User.conv", "user", "fields", "alias", "schema")
+def _():
+    from apischema.json_schema import serialization_schema
+
+    return serialization_schema(User, conversion=USER_CONV)
+
 # -- GraphQL: schema printing and execution (resolver results go through the cached
 #    partial serialization methods)
 def gq_p() -> P:
@@ -1372,6 +1507,8 @@ for _t, _tags in [
     ("Zoo", ("disc", "typename")), ("AL", ("alias",)), ("OR", ("order",)), ("DR", ("depreq",)),
     ("S1", ("serialized", "order")), ("S1Sub", ("serialized",)), ("Rec", ("alias", "addprops")), ("U", ()),
     ("PosInt", ("schemareg",)), ("FL", ("flat", "alias", "fields")), ("LPet", ("lpet", "disc")), ("L", ("enum",)),
+    ("BoxHolder", ("box", "typename")), ("BoxInt", ("box", "typename")), ("UserView", ("user", "fields", "alias")),
+    ("ExV", ("exclude", "alias", "nocopy_s")), ("Op1Ex", ("conv_s",)),
 ]:
     _schemas(_t, *_tags)
 
